@@ -1065,11 +1065,11 @@ fn hard_for(fmt: Fmt, q: i32, out: &mut Vec<Hard>, per_binade: usize) {
         }
         // candidates: small combinations of the last convergent denominators
         let mut cands: Vec<u64> = Vec::new();
-        let tail: Vec<u128> = ks.iter().rev().filter(|&&k| k <= wh).take(5).copied().collect();
+        let tail: Vec<u128> = ks.iter().rev().filter(|&&k| k <= wh).take(6).copied().collect();
         for (i, &ka) in tail.iter().enumerate() {
             for &kb in tail.iter().skip(i) {
-                for ma in 0..=5u128 {
-                    for mb in 0..=3u128 {
+                for ma in 0..=8u128 {
+                    for mb in 0..=4u128 {
                         let c = ma * ka + mb * kb;
                         if c >= wl && c <= wh {
                             cands.push(c as u64);
@@ -1100,7 +1100,7 @@ fn hard_for(fmt: Fmt, q: i32, out: &mut Vec<Hard>, per_binade: usize) {
                 continue;
             }
             let c = den.bits() as i64 - dist.bits() as i64; // ~ -log2(dist/den)
-            if c >= 24 {
+            if c >= 10 {
                 scored.push(Hard { w, q, closeness: c as u32 });
             }
         }
@@ -1125,7 +1125,7 @@ pub fn hard_table() -> &'static HardTable {
                         s.spawn(move || {
                             let mut out = Vec::new();
                             for &q in c {
-                                hard_for(fmt, q, &mut out, 6);
+                                hard_for(fmt, q, &mut out, 10);
                             }
                             out
                         })
